@@ -321,7 +321,7 @@ func (a *attacker) randomDyn() []byte {
 
 var c12moves = []string{"dup-registerEvent", "conflicting-unregister", "foreign-ids", "wrong-object-ids", "garbage-property", "mutated-directory-call",
 	"unknown-targets", "all-message-types", "big-payload", "flood-drain-late", "flood-abrupt-close", "cut-mid-message", "reauthenticate-racing-calls",
-	"documented-removal", "mutated-arguments", "subscribe-then-vanish", "hostile-signatures", "garbage-bytes", "stats-and-trace"}
+	"documented-removal", "mutated-arguments", "subscribe-then-vanish", "hostile-signatures", "garbage-bytes", "stats-and-trace", "terminate-under-flood"}
 
 func (a *attacker) move(name string) {
 	r := a.rng
@@ -526,6 +526,39 @@ func (a *attacker) move(name string) {
 		a.send(qnet.Call, s, o, info.Actions["blob"], append(u32(0), p.Bytes()[p.Len()-len(sig)-8:]...))
 		a.logf("dynamic value with signature %s and count 0xffffffff", clipS(sig))
 		a.drain(100 * time.Millisecond)
+	case "terminate-under-flood":
+		// the documented removal of one object, pipelined in the middle of a burst of calls to that same
+		// object (messages are still being routed to it while it goes away)
+		s, o := a.target()
+		if !a.connect() {
+			return
+		}
+		var buf bytes.Buffer
+		n := 30 + r.Intn(300)
+		at := r.Intn(n)
+		meta := u32(o)
+		for k := 0; k < n; k++ {
+			if k == at {
+				buf.Write(rc.Frame(rc.Header{Magic: rc.Magic, ID: a.conn.id(), Type: qnet.Call, Service: s, Object: o, Action: 3}, u32(o)))
+			}
+			act, pl := work, workArgs(uint64(k), "tf")
+			if k%3 == 0 {
+				act, pl = 2, meta
+			}
+			buf.Write(rc.Frame(rc.Header{Magic: rc.Magic, ID: a.conn.id(), Type: qnet.Call, Service: s, Object: o, Action: act}, pl))
+		}
+		a.ch.removed[[2]uint32{s, o}] = true
+		conn := a.conn
+		done := make(chan struct{})
+		go func() { conn.sendBytes(buf.Bytes()); close(done) }()
+		a.drain(time.Duration(20+r.Intn(80)) * time.Millisecond)
+		select {
+		case <-done:
+		case <-time.After(2 * time.Second):
+			a.drop()
+			<-done
+		}
+		a.logf("terminate(%d) in the middle of %d pipelined calls to %d/%d", o, n, s, o)
 	case "stats-and-trace":
 		// the generic statistics / tracing actions of every object (80-85), then traffic that is
 		// accounted and traced: known, unknown and failing actions, and a subscription to the trace signal
@@ -773,7 +806,7 @@ func (r *rawConn) callNoDeadline(service, obj, action uint32, payload []byte, _ 
 }
 
 func c12(c *wk.Ctx) {
-	c.Note("rule", "the server (directory + 2 Probe services x 3 objects, freshly generated stubs) runs in a child process of the worker; each case is a PRNG sequence of 2-7 moves by one authenticated hostile client from a grammar of 19 move kinds (incl. the generic statistics / tracing actions) (duplicate / conflicting / foreign registerEvent and unregisterEvent, wrong object ids, random dynamic values at property/setProperty, directory calls with mutated ServiceInfo, unknown actions/objects/services, all eight message types, payloads up to the limit, floods of 2-10k calls drained late or cut by an abrupt close, disconnects mid-header/mid-payload, authenticate frames racing calls, hostile length fields and signatures, the documented removals terminate()/unregisterService(), random bytes). After each sequence a fresh connection authenticates, lists the directory and calls work() on every object the sequence did not legitimately remove. Oracle: the child is alive (exit or fatal error = violation with its stderr), every probe returns f(token); a probe that does not return is decided by the child's own quiescence detector (blocked forever = violation), a CPU / memory budget read from /proc, or a watchdog (inconclusive). Race reports of the child are violations. Distinct non-trivial = distinct move sequences after which at least 4 objects were probed.")
+	c.Note("rule", "the server (directory + 2 Probe services x 3 objects, freshly generated stubs) runs in a child process of the worker; each case is a PRNG sequence of 2-7 moves by one authenticated hostile client from a grammar of 20 move kinds (incl. the generic statistics / tracing actions and a documented removal in the middle of a burst) (duplicate / conflicting / foreign registerEvent and unregisterEvent, wrong object ids, random dynamic values at property/setProperty, directory calls with mutated ServiceInfo, unknown actions/objects/services, all eight message types, payloads up to the limit, floods of 2-10k calls drained late or cut by an abrupt close, disconnects mid-header/mid-payload, authenticate frames racing calls, hostile length fields and signatures, the documented removals terminate()/unregisterService(), random bytes). After each sequence a fresh connection authenticates, lists the directory and calls work() on every object the sequence did not legitimately remove. Oracle: the child is alive (exit or fatal error = violation with its stderr), every probe returns f(token); a probe that does not return is decided by the child's own quiescence detector (blocked forever = violation), a CPU / memory budget read from /proc, or a watchdog (inconclusive). Race reports of the child are violations. Distinct non-trivial = distinct move sequences after which at least 4 objects were probed.")
 	var ch *child
 	defer func() {
 		if ch != nil {
